@@ -42,6 +42,10 @@ class Deque:
         self.initial = None
 
 
+DTKIND = z3.Function("DTKIND", I, I)
+DTSIZE = z3.Function("DTSIZE", I, I)
+
+
 def harness(grad_kind):
     def h(ctx: Ctx):
         cfg = Config()
@@ -133,6 +137,33 @@ def harness(grad_kind):
         NP.resize = staticmethod(np_resize)
         NP.broadcast_to = staticmethod(np_broadcast_to)
         cfg.module_overrides["numpy"] = NP
+
+        # a dtype is a symbolic id; its `.kind` / `.itemsize` are uninterpreted functions of the id (equal dtypes: equal kind and width)
+        class _Kind:
+            def __init__(self, e):
+                self.e = e
+
+            def __sym_eq__(self, interp_, other):
+                if isinstance(other, str) and len(other) == 1:
+                    return self.e == ord(other)
+                if isinstance(other, _Kind):
+                    return self.e == other.e
+                raise Unsupported(f"dtype.kind compared with {other!r}")
+
+            def __sym_contains_in__(self, interp_, container):
+                raise Unsupported("dtype.kind membership")
+
+        def dtype_attr(interp_, e, name):
+            if not z3.is_int(e):
+                return None
+            if name == "kind":
+                return _Kind(DTKIND(e))
+            if name == "itemsize":
+                ctx.assume(DTSIZE(e) >= 1)
+                return DTSIZE(e)
+            return None
+
+        cfg.expr_attr_hook = dtype_attr
         # ---- callee contracts --------------------------------------------------------------------------------
         n = z3.Int("n_topo")
         ctx.assume(n >= 0)
